@@ -188,6 +188,25 @@ def task_C02(tier, seed, arg):
     _fraction_strings(R, "C02")
     _operands_unchanged(R, "C02")
     _tiny_counts(R, "C02")
+    # a structure may be given as lists or tuples, in any mixture, at any level
+    H, O, Ca, C = pt.H, pt.O, pt.Ca, pt.C
+    want = {"Ca": 1, "C": 1, "O": 9, "H": 12}
+    shapes = {"tuple of pairs, list group": ((1, Ca), (1, C), (3, O), (6, [(2, H), (1, O)])),
+              "list of pairs, tuple group": [(1, Ca), (1, C), (3, O), (6, ((2, H), (1, O)))],
+              "list of lists": [[1, Ca], [1, C], [3, O], [6, [[2, H], [1, O]]]],
+              "tuple of tuples": ((1, Ca), (1, C), (3, O), (6, ((2, H), (1, O)))),
+              "tuple, list group inside tuple group": ((1, Ca), (1, C), (3, O), (2, ((3, [(2, H), (1, O)]),))),
+              "list, tuple group inside list group": [(1, Ca), (1, C), (3, O), (2, [(3, ((2, H), (1, O)))])]}
+    for label, st_ in shapes.items():
+        R.ok(2, ("mixed-shapes", label))
+        f = formula(st_)
+        for g, k, what in ((f, 1, "formula(structure)"), (2 * f, 2, "2*f"), (f + formula("H2O"), None, "f + H2O")):
+            got = _atoms_names(g.atoms)
+            exp = {a: n * k for a, n in want.items()} if k else {"Ca": 1, "C": 1, "O": 10, "H": 14}
+            if not nat.maps_close(got, exp, 1e-12):
+                R.violation("C02:mixed_list_tuple_structure:%s" % label, "%s for a structure given as %s does not count every group" % (what, label),
+                            {"shape": label}, got, exp)
+                break
     # an ion and the same ion of one isotope are different atoms with different masses
     K = pt.constants.electron_mass
     for el, iso, q in (("Fe", 57, 3), ("H", 2, 1), ("Li", 6, 1), ("Cl", 37, -1), ("O", 18, -2)):
@@ -553,6 +572,25 @@ def task_C15(tier, seed, arg):
             if t == 0 and A0 > A0 * frac:
                 R.violation("C15:zero_for_weak_sample", "decay_time returns 0 although the activity at removal (%.3g uCi) is above the target" % A0,
                             {"formula": ftxt, "mass": m, "fraction": frac}, t, "> 0")
+    # the same calculation, repeated on new Sample objects (formulas holding an isotope next to its natural element)
+    env2 = act.ActivationEnvironment(fluence=1e8, Cd_ratio=70, fast_ratio=50)
+    for ftxt in ("Co[59]Co", "HDO", "Li[6]9LiF10", "Gd[160]Gd", "Co"):
+        ref_act, ref_t = None, None
+        for k in range(4):
+            s = act.Sample(ftxt, 1.0)
+            s.calculate_activation(env2, exposure=5, rest_times=(0, 1, 24))
+            cur = sorted((str(p.daughter), p.reaction, [float(x) for x in v]) for p, v in s.activity.items())
+            R.ok(1, ("repeat", ftxt, k))
+            try:
+                t = s.decay_time(0.01 * sum(v[2][0] for v in cur)) if cur else 0
+            except RuntimeError:
+                t = "RuntimeError"
+            if ref_act is None:
+                ref_act, ref_t = cur, t
+            elif cur != ref_act or t != ref_t:
+                R.violation("C15:repeat_changes_result", "run %d of the same activation of %s gives other activities / another decay time than run 1" % (k + 1, ftxt),
+                            {"formula": ftxt, "run": k + 1}, [cur[:2], t], [ref_act[:2], ref_t])
+                break
     # formulas that name specific isotopes, activated with rest lists other than the default one: every product carries one
     # activity per requested rest time, and the answer does not depend on which rest times were requested
     env = act.ActivationEnvironment(fluence=1e8, Cd_ratio=70, fast_ratio=50)
@@ -853,6 +891,20 @@ def task_C11(tier, seed, arg):
         R.ok(1, (s,))
         if not close(f.density, inner.density, 1e-12):
             R.violation("C11:grouped_mixture_natural_density", "'( mixture )@<d>n' must set the NATURAL density of the mixture", s, f.density, inner.density)
+    # substituting isotopes in a mixture gives a NEW formula: the mixture, and equal mixtures built later, keep their atoms
+    import periodictable as pt
+    for mk in (lambda: mix_by_weight("NaCl@2.16", 1, "H2O@1", 3), lambda: formula("25 wt% NaCl@2.16 // H2O@1"), lambda: formula("(CaCO3(H2O)6)2"), lambda: mix_by_volume("H2O@1", 1, "C2H6O@0.79", 1)):
+        m = mk()
+        before = (_atoms_names(m.atoms), m.mass, m.density)
+        R.ok(2, ("replace-on-mixture", str(m)[:30]))
+        d = m.replace(pt.H, pt.D)
+        again = mk()
+        for label, x in (("the mixture itself", m), ("an equal mixture built afterwards", again)):
+            now = (_atoms_names(x.atoms), x.mass, x.density)
+            if not nat.maps_close(now[0], before[0], 1e-12) or not close(now[1], before[1], 1e-12) or not (now[2] == before[2] or close(now[2], before[2], 1e-12)):
+                R.violation("C11:mixture_changed_by_replace", "after m.replace(H, D) %s reports other atoms / mass / density" % label, {"mixture": str(m)[:60]}, [now[0], now[1], now[2]], list(before))
+        if "H" in _atoms_names(d.atoms) or "H[2]" not in _atoms_names(d.atoms):
+            R.violation("C11:replace_on_mixture", "m.replace(H, D) of a mixture does not hold D in place of H", {"mixture": str(m)[:60]}, _atoms_names(d.atoms))
     # 'a wt% X // b% Y // Z' with a bare '%' in the middle, for middle components whose symbol begins like a keyword (W.., V.., M..)
     for kw, mixer in (("wt%", mix_by_weight), ("vol%", mix_by_volume)):
         for mid in ("W", "V", "Mn", "Mg", "Mo", "WO3", "V2O5", "Md", "Mt", "Fe"):
@@ -1079,6 +1131,22 @@ def task_C05(tier, seed, arg):
         for atom in (pt.Ni, pt.Fe.ion[2], pt.O.ion[-2]):
             _entrywise(R, "C05:argument_type:f0:%s:%s" % (tname, nat.atom_name(atom)), "%s.xray.f0(<%s>)" % (nat.atom_name(atom), tname),
                        lambda q: atom.xray.f0(q), val, prec)
+    # f1, f2 of an ion (and of an isotope ion) are those of the element's table over the whole tabulated range
+    for el in pt.elements:
+        tab = getattr(el.xray, "sftable", None) if hasattr(el, "xray") else None
+        if tab is None or not getattr(el, "ions", None):
+            continue
+        E = np.asarray(tab[0], dtype=float)
+        grid = np.array([E[0], E[0] * 1.37, E[1], 0.5 * (E[2] + E[3]), E[len(E) // 2], E[-2], E[-1], E[0] * 0.5, E[-1] * 1.01])
+        ref = el.xray.scattering_factors(energy=grid)
+        atoms_ = [el.ion[el.ions[0]], el.ion[el.ions[-1]]] + ([el[el.isotopes[0]].ion[el.ions[0]]] if el.isotopes else [])
+        for a in atoms_:
+            R.ok(1, ("ion-table", nat.atom_name(a)))
+            got = a.xray.scattering_factors(energy=grid)
+            if not all(np.array_equal(np.asarray(g), np.asarray(r), equal_nan=True) for g, r in zip(got, ref)):
+                R.violation("C05:ion_scattering_factors", "f1/f2 of %s differ from the interpolation of the element's table (NaN only outside the tabulated range)" % nat.atom_name(a),
+                            {"atom": nat.atom_name(a), "energies_keV": grid.tolist()}, [np.asarray(g).tolist() for g in got], [np.asarray(r).tolist() for r in ref])
+                break
     # f0 of every tabulated atom / ion, then a request for an ion of the same element that has NO coefficients (whatever that
     # request does: KeyError, an estimate, ...), then the tabulated ones again: unchanged, still -> Z - charge
     Q = np.array([1e-6, 0.5, 2.0, 10.0])
